@@ -56,23 +56,22 @@ def run(ctx):
     ctx.rule("P2", "balancing quantum = rounding step of the per-port totals")
     inc = P["inc"]
     s = ctx.func("ArchSemantics.get_throughput_sum")
-    rd = pm.find("round(sum(M_c), M_d)", s.node)
-    ok = inc is not None and C.const_num(inc.value) is not None and bool(rd) and C.const_num(rd[0][1]["M_d"]) is not None \
-        and abs(10 ** (-C.const_num(rd[0][1]["M_d"])) - C.const_num(inc.value)) < 1e-12
-    ctx.check(ok, "P2", "INC = 0.01 and totals are rounded to 2 decimals", f.where(inc) if inc is not None else f.where(),
+    sh = C.aggregator_shape(ctx)
+    dig = C.const_value(ctx, s, sh["digits"]) if sh["ok"] else None
+    incv = C.const_value(ctx, f, inc.value) if inc is not None else None
+    ok = incv is not None and dig is not None and abs(10 ** (-dig) - incv) < 1e-12
+    ctx.judge(ok, sh["ok"] and inc is not None and incv is not None and dig is not None, "P2", "INC = 0.01 and totals are rounded to 2 decimals",
+              f.where(inc) if inc is not None else f.where(),
               "the quantum INC = %s and the rounding round(..., %s) of the totals disagree: totals are no longer multiples of the "
               "quantum and the comparison of port sums (hence termination and the bottleneck bound) breaks" % (
-                  U(inc.value) if inc is not None else None, U(rd[0][1]["M_d"]) if rd else None), f.qname, "quantum agreement")
+                  U(inc.value) if inc is not None else None, U(sh["digits"]) if sh["digits"] is not None else None), f.qname, "quantum agreement")
     # the totals are rounded ONCE, after the unrounded per-line values were summed
-    rounds = [c for c in ast.walk(s.node) if isinstance(c, ast.Call) and isinstance(c.func, ast.Name) and c.func.id == "round"]
-    outer = [c for c in rounds if c.args and any(isinstance(x, ast.Call) and isinstance(x.func, ast.Name) and x.func.id in ("sum", "fsum")
-                                                 for x in ast.walk(c.args[0]))]
-    inner = [c for c in rounds if c not in outer]
-    ctx.judge(len(outer) == 1 and not inner, len(outer) >= 1 and len(rounds) >= 1, "P2",
+    inner = sh["inner_rounds"] if sh["ok"] else []
+    ctx.judge(sh["ok"] and not inner, sh["ok"], "P2",
               "per-port totals = round(sum(unrounded per-line values)) - rounded once", s.where(inner[0]) if inner else s.where(),
               "get_throughput_sum also rounds the per-line values (`%s`) before summing them: each line can lose up to half a "
               "rounding step, the losses add up over the lines, and the reported bottleneck undercuts the exact optimum by more "
-              "than one rounding step (4 micro-ops on 3 ports: 4 x 0.33 = 1.32 against 4/3)" % (U(inner[0])[:80] if inner else ""),
+              "than one rounding step (4 micro-ops on 3 ports: 4 x 0.33 = 1.32 against 4/3)" % (U(inner[0])[:80] if inner else sh["why"]),
               s.qname, "single rounding")
     rng = sl.iter
     ctx.check(U(rng) in ("range(int(cycles * (1 / INC)))", "range(int(cycles / INC))", "range(round(cycles / INC))"), "P2",
@@ -100,32 +99,66 @@ def run(ctx):
     # ---- P4 selection direction
     ctx.rule("P4", "an alternative replaces the current assignment only under strict comparison of bottlenecks")
     col = [n for n in ast.walk(b) if isinstance(n, ast.If) and "best_kernel_tp" in U(n.test)]
-    okc = len(col) == 1 and U(col[0].test) == C.CT("max(self.get_throughput_sum(k_tmp)) < best_kernel_tp") and any(
-        U(s) == "best_kernel = k_tmp" for s in col[0].body) and any(
-        U(s) == "best_kernel_tp = max(self.get_throughput_sum(best_kernel))" for s in col[0].body)
-    ctx.check(okc, "P4", "collecting: keep an alternative iff its bottleneck is strictly smaller than the best so far", f.where(col[0]) if col else f.where(b),
+    okc, rec_c = False, False
+    if len(col) == 1:
+        fl = C.flow_of(f)
+        def held(e):
+            """a local that holds max(self.get_throughput_sum(K)) (one definition) stands for that expression"""
+            if isinstance(e, ast.Name) and e.id not in ("best_kernel_tp",):
+                ds = [a_ for a_ in C.assigns_to(f.node, e.id) if isinstance(a_, ast.Assign)]
+                if len(ds) == 1 and pm.match("max(self.get_throughput_sum(M_k))", ds[0].value) is not None:
+                    return ds[0].value
+            return e
+        t = col[0].test
+        if isinstance(t, ast.Compare) and len(t.ops) == 1:
+            t = ast.Compare(left=held(t.left), ops=t.ops, comparators=[held(t.comparators[0])])
+            ast.fix_missing_locations(t)
+        bt = pm.match("max(self.get_throughput_sum(M_k)) < best_kernel_tp", t)
+        loose = pm.match("max(self.get_throughput_sum(M_k)) <= best_kernel_tp", t) or pm.match(
+            "max(self.get_throughput_sum(M_k)) > best_kernel_tp", t) or pm.match("max(self.get_throughput_sum(M_k)) >= best_kernel_tp", t)
+        rec_c = bt is not None or loose is not None
+        if bt is not None:
+            kk = U(bt["M_k"])
+            keep = any(isinstance(s_, ast.Assign) and U(s_.targets[0]) == "best_kernel" and U(s_.value) == kk for s_ in col[0].body)
+            tpv = [s_ for s_ in col[0].body if isinstance(s_, ast.Assign) and U(s_.targets[0]) == "best_kernel_tp"]
+            tp_ok = bool(tpv) and U(held(tpv[0].value)).replace("best_kernel", kk) == "max(self.get_throughput_sum(%s))" % kk
+            okc = keep and tp_ok
+    ctx.judge(okc, rec_c, "P4", "collecting: keep an alternative iff its bottleneck is strictly smaller than the best so far", f.where(col[0]) if col else f.where(b),
               "the best alternative is not selected by `max(totals(alt)) < best so far` with both `best_kernel` and its bottleneck "
               "updated together", f.qname, "collect best")
     init = [a2 for a2 in ast.walk(b) if isinstance(a2, ast.Assign) and U(a2.targets[0]) == "best_kernel_tp"]
     ctx.check(bool(init) and U(init[0].value) == "sys.maxsize", "P4", "best-so-far starts at +infinity", f.where(b),
               "best_kernel_tp is initialised to %s" % (U(init[0].value) if init else None), f.qname, "best init")
-    sw = [n for n in ast.walk(f.node) if isinstance(n, ast.If) and U(n.test) == "multiple_assignments"]
-    oks = False
-    if sw:
-        inner = [n for n in sw[0].body if isinstance(n, ast.If)]
-        oks = len(inner) == 1 and U(inner[0].test) == C.CT("max(self.get_throughput_sum(kernel)) > best_kernel_tp")
-        if oks:
-            # the pressure of every line is taken over from the best alternative (what the totals are computed from)
-            loops = [l for l in ast.walk(inner[0]) if isinstance(l, ast.For) and "best_kernel" in U(l.iter)]
-            oks = False
-            for l in loops:
-                elem = U(l.target.elts[1]) if isinstance(l.target, ast.Tuple) and len(l.target.elts) == 2 else None
-                idx = U(l.target.elts[0]) if elem else U(l.target)
-                for st in l.body:
-                    if isinstance(st, ast.Assign) and U(st.targets[0]) == "kernel[%s].port_pressure" % idx and U(st.value) in (
-                            "best_kernel[%s].port_pressure" % idx, "%s.port_pressure" % elem):
-                        oks = True
-    ctx.check(oks, "P4", "swapping: take the best alternative iff the main branch's bottleneck is strictly larger", f.where(sw[0]) if sw else f.where(),
+    # swapping in: a loop pairing the lines of `kernel` with those of `best_kernel` copies port_pressure, under
+    # `multiple_assignments` and `max(totals(kernel)) > best_kernel_tp` (nested or merged, helper or in place)
+    oks, rec_s, sw = False, False, []
+    for l in [x for x in ast.walk(f.node) if isinstance(x, ast.For) and "best_kernel" in U(x.iter)]:
+        own = other = None
+        it = l.iter
+        bz = pm.match("zip(kernel, best_kernel)", it)
+        if bz is not None and isinstance(l.target, ast.Tuple) and len(l.target.elts) == 2:
+            own, other = U(l.target.elts[0]), U(l.target.elts[1])
+        elif pm.match("enumerate(best_kernel)", it) is not None and isinstance(l.target, ast.Tuple) and len(l.target.elts) == 2:
+            own, other = "kernel[%s]" % U(l.target.elts[0]), U(l.target.elts[1])
+        elif pm.match("range(len(best_kernel))", it) is not None or pm.match("range(len(kernel))", it) is not None:
+            own, other = "kernel[%s]" % U(l.target), "best_kernel[%s]" % U(l.target)
+        if own is None:
+            continue
+        alt_other = "best_kernel[%s]" % U(l.target.elts[0]) if isinstance(l.target, ast.Tuple) else other
+        pairs = [st for st in l.body if isinstance(st, ast.Assign) and isinstance(st.targets[0], ast.Attribute)
+                 and U(st.targets[0].value) == own and isinstance(st.value, ast.Attribute) and U(st.value.value) in (other, alt_other)
+                 and st.value.attr == st.targets[0].attr]
+        if not pairs or len(l.body) > 2 or any(isinstance(x, (ast.If, ast.Continue, ast.Break)) for x in ast.walk(l)):
+            continue
+        copies = [st for st in pairs if st.targets[0].attr == "port_pressure"]
+        sw = [l]
+        facts = [(U(e), pol) for e, pol in C.facts_at(l)]
+        has_flag = ("multiple_assignments", True) in facts
+        strict = (C.CT("max(self.get_throughput_sum(kernel)) > best_kernel_tp"), True) in facts
+        loose = any(pol and "best_kernel_tp" in t and "get_throughput_sum(kernel)" in t for t, pol in facts)
+        rec_s = has_flag and (strict or loose)
+        oks = has_flag and strict and bool(copies)
+    ctx.judge(oks, rec_s, "P4", "swapping: take the best alternative iff the main branch's bottleneck is strictly larger", f.where(sw[0]) if sw else f.where(),
               "the final choice between main branch and best alternative is not `max(totals(main)) > best` taking over the "
               "port_pressure of every line unconditionally", f.qname, "swap in best")
     if sw:
